@@ -68,6 +68,36 @@ class OffsetHigh2D(Gaussian2D):
         return super().log_likelihood(x) + 700.0
 
 
+class UnitPrior2D(_Box):
+    """Non-uniform prior in the unit hypercube: truncated Gaussian prior on the box with the linear map,
+    so log_prior_unit_hypercube is NOT zero (importance sampler: logW = logU - logQ with logU != 0)."""
+
+    lo = -4.0
+    hi = 4.0
+    ndim = 2
+
+    def __init__(self):
+        import math
+
+        super().__init__()
+        self._logc = self.ndim * math.log(math.sqrt(2.0 * math.pi * 4.0) * math.erf(4.0 / math.sqrt(8.0)))
+
+    def log_prior(self, x):
+        with np.errstate(divide="ignore"):
+            lp = np.log(self.in_bounds(x).astype(float))
+        return lp - 0.5 * self._r2(x) / 4.0 - self._logc
+
+    def log_prior_unit_hypercube(self, x):
+        u = self.unstructured_view(x)
+        with np.errstate(divide="ignore"):
+            inside = np.log((~np.any((u < 0) | (u >= 1), axis=-1)).astype(float))
+        phys = self.from_unit_hypercube(x)
+        return inside - 0.5 * self._r2(phys) / 4.0 - self._logc + self.ndim * np.log(self.hi - self.lo)
+
+    def log_likelihood(self, x):
+        return -0.5 * ((x["x0"] - 0.5) ** 2 + (x["x1"] + 0.5) ** 2) / 0.25
+
+
 class Gaussian3D(_Box):
     ndim = 3
 
@@ -195,6 +225,7 @@ class Angle2D(Model):
 MODELS = {
     "angle2": Angle2D,
     "gauss2": Gaussian2D,
+    "uprior2": UnitPrior2D,
     "offlow2": OffsetLow2D,
     "offhigh2": OffsetHigh2D,
     "gauss3": Gaussian3D,
